@@ -111,6 +111,30 @@ def verdict (aesni : Bool) (cfgs : List Cfg) (sni : Bytes) (localAddr : Option B
     | _ => "bad:incompatible-accepted:two sites share an SNI key with different settings"
   else selectVerdict aesni cfgs sni localAddr o
 
+/-- a completed handshake under server name `sni` against a consistent TLS site set: the version
+lies in the governing site's range (TLS 1.2 minimum unless configured), a client certificate is
+requested exactly when that site demands one, and — when the site is found by name — the
+certificate presented is the one of that site's host pattern -/
+def hsVerdict (aesni : Bool) (cfgs : List Cfg) (sni : Bytes) (localAddr : Option Bytes) (o : HS) : String :=
+  if !inDomain cfgs || mixed cfgs || cfgs.all (!·.enabled) || caMissing cfgs || conflicting aesni cfgs then
+    match o with
+    | .fail => "ok"
+    | .ok _ _ _ => "bad:handshake-on-invalid-set:a handshake completed on a site set that must be rejected or plaintext"
+  else
+    match o, wanted cfgs sni localAddr with
+    | .fail, _ => "ok"
+    | .ok _ _ _, none => "ok"
+    | .ok v san req, some j =>
+      match cfgs[j]? with
+      | none => "ok"
+      | some c =>
+        let e := effective aesni c
+        if v < e.minV then "bad:version-below-site-min:negotiated a version below the governing site's minimum"
+        else if e.maxV < v then "bad:version-above-site-max:negotiated a version above the governing site's maximum"
+        else if req != (c.clientAuth != 0) then "bad:client-cert-policy:client certificate requested iff the governing site demands one — violated"
+        else if mapKey c.hostname != [] && san != c.hostname then "bad:wrong-certificate:the certificate presented is not the governing site's"
+        else "ok"
+
 /-- the strict-SNI clause, on what a request over a connection got: a site that demands client
 certificates (and keeps the check on) serves only requests whose TLS server name equals the
 Host name (port stripped, letter case ignored) -/
